@@ -18,7 +18,7 @@ from fractions import Fraction
 import numpy as np
 
 from harness import core, gen, impl
-from harness.core import g_bool, g_list, g_nat, g_opt, g_q, g_vec, g_xq
+from harness.core import g_bool, g_list, g_nat, g_opt, g_q, g_vec, g_xq, g_Z
 
 IMPORTS = """From Coq Require Import QArith ZArith List Bool.
 From CC Require Import Base.XQ Base.Render Base.ListX Spec.Survey Model.CubeCounts Model.CubeCountsRender.
@@ -40,6 +40,8 @@ def var_to_json(v):
             d[key] = copy.deepcopy(getattr(v, key))
     if getattr(v, "view_insertions", None) is not None:
         d["view_insertions"] = copy.deepcopy(v.view_insertions)
+    if getattr(v, "typedef_order", None) is not None:
+        d["typedef_order"] = copy.deepcopy(v.typedef_order)
     return d
 
 
@@ -106,8 +108,123 @@ def natural_axes(sv, aliases):
     out = []
     for a in aliases:
         for role, ms in var_axes(sv.var(a)):
-            out.append({"alias": a, "role": role, "missing": ms})
+            ax = {"alias": a, "role": role, "missing": ms}
+            td = axis_typedef(sv.var(a), role)
+            if td is not None:
+                ax["typedef"] = td          # only variables that carry a typedef order (C01)
+            out.append(ax)
     return out
+
+
+# ------------------------------------------------------------------------------------
+# "order" list in the TYPE DEFINITION of a categorical / enum dimension (type.order)
+#
+# v.cats / v.elements stay in PAYLOAD order (answers, tabulation, oracle and the missing flags of
+# the axes all index it).  v.typedef_order = {"catalogue": [{"p": payload position} | {"extra":
+# element dict not mentioned in the order list}, ...], "order": [code, ...]} says how the type
+# definition LISTS the elements (any order, plus elements the order list leaves out, which are
+# then no elements of the dimension at all) and what its "order" list is (the ids in payload
+# order, plus codes the catalogue does not know, which have no payload slot).  Variables without
+# the attribute are emitted as before.
+# ------------------------------------------------------------------------------------
+
+def payload_elements(v):
+    """the element dicts of the one-axis part of a variable that can carry a typedef order"""
+    if v.kind in ("cat", "cat_date", "ca"):
+        return v.cats
+    if v.kind in ("datetime", "text", "binned"):
+        return v.elements
+    return None
+
+
+def axis_typedef(v, role):
+    """{"defs": [(id, missing)] in catalogue order, "order": [codes]} of an axis, or None"""
+    td = getattr(v, "typedef_order", None)
+    if td is None or role not in ("cat", "ca_cats"):
+        return None
+    els = payload_elements(v)
+    defs = []
+    for entry in td["catalogue"]:
+        e = els[entry["p"]] if "p" in entry else entry["extra"]
+        defs.append([e["id"], bool(e.get("missing"))])
+    return {"defs": defs, "order": list(td["order"])}
+
+
+def gen_typedef_order(rng, v, p_shuffle=0.85, p_extra=0.3, p_unknown=0.25):
+    """a random typedef order for a cat / cat_date / ca / enum variable (does not touch v)"""
+    els = payload_elements(v)
+    n = len(els)
+    perm = list(range(n))
+    if n >= 2 and rng.random() < p_shuffle:
+        while perm == list(range(n)):
+            rng.shuffle(perm)
+    catalogue = [{"p": p} for p in perm]
+    ids = [e["id"] for e in els]
+    fresh = [i for i in range(40, 60) if i not in ids]
+    rng.shuffle(fresh)
+    if rng.random() < p_extra:
+        for j in range(rng.randint(1, 2)):
+            i = fresh.pop()
+            missing = rng.random() < 0.4
+            if v.kind in ("cat", "cat_date", "ca"):
+                e = {"id": i, "missing": missing, "name": "%s_x%d" % (v.alias, i), "numeric_value": None}
+                if v.kind == "cat_date" and not missing:
+                    e["date"] = "2030-%02d" % (1 + j)
+            elif missing:
+                e = {"id": i, "missing": True, "value": {"?": -2}}
+            else:
+                val = {"datetime": "2030-%02d" % (1 + j), "text": "%s_x%d" % (v.alias, i),
+                       "binned": [900 + 10 * j, 910 + 10 * j]}[v.kind]
+                e = {"id": i, "missing": False, "value": val}
+            catalogue.insert(rng.randint(0, len(catalogue)), {"extra": e})
+    order = list(ids)
+    if rng.random() < p_unknown:
+        for _ in range(rng.randint(1, 2)):
+            order.insert(rng.randint(0, len(order)), fresh.pop())
+    return {"catalogue": catalogue, "order": order}
+
+
+def apply_typedef_orders(resp, sv):
+    """re-list the categories / elements of every dimension dict whose variable carries a typedef
+    order and add the "order" key (in place; a no-op for any other response)"""
+    for d in resp["result"]["dimensions"]:
+        alias = (d.get("references") or {}).get("alias")
+        try:
+            v = sv.var(alias)
+        except KeyError:
+            continue
+        td = getattr(v, "typedef_order", None)
+        if td is None:
+            continue
+        t = d["type"]
+        if t["class"] == "categorical":
+            if v.kind == "mr":
+                continue
+            key = "categories"
+            extra_json = gen.cat_json
+        elif t["class"] == "enum" and t.get("subtype", {}).get("class") != "variable":
+            key = "elements"
+            extra_json = copy.deepcopy
+        else:
+            continue                      # the items dimension of an array
+        listed = t[key]
+        t[key] = [listed[e["p"]] if "p" in e else extra_json(e["extra"]) for e in td["catalogue"]]
+        t["order"] = list(td["order"])
+    return resp
+
+
+def axis_expected_ids(sv, ax):
+    """element ids (as Dimension.valid_elements.element_ids reports them) of the valid elements
+    of an apparent axis, in payload order, from the survey's variables"""
+    v = sv.var(ax["alias"])
+    role = ax["role"]
+    valid = valid_positions(ax["missing"])
+    if role in ("mr_items", "ca_items"):
+        return [v.items[k]["alias"] for k in valid]
+    els = payload_elements(v)
+    if v.kind == "datetime":
+        return [els[k]["value"] for k in valid]
+    return [els[k]["id"] for k in valid]
 
 
 def axis_blocks(sv, aliases):
@@ -151,6 +268,8 @@ def build_response(sv, aliases, perm=None, measures=("count",), numvar=None, val
         res["counts"] = permute_flat(res["counts"], shape, perm)
         for m in res["measures"].values():
             m["data"] = permute_flat(m["data"], shape, perm)
+    if any(getattr(v, "typedef_order", None) is not None for v in sv.vars):
+        apply_typedef_orders(resp, sv)
     return resp
 
 
@@ -164,9 +283,21 @@ def response_axes(sv, aliases, perm):
 # Gallina literals
 # ------------------------------------------------------------------------------------
 
+def g_typedef(td):
+    return "%s (Some %s)" % (g_list(["(mkEdef %s %s)" % (g_Z(i), g_bool(m)) for i, m in td["defs"]]),
+                             g_list([g_Z(c) for c in td["order"]]))
+
+
+def g_dim(a):
+    if a.get("typedef") is not None:
+        # the dimension as Model/TypedefOrder.v derives it from the type definition (C01 only:
+        # needs Model.TypedefOrder among the imports)
+        return "(dim_of_typedef %s %s)" % (ROLE_DK[a["role"]], g_typedef(a["typedef"]))
+    return "(mkDim %s %s)" % (ROLE_DK[a["role"]], g_list([g_bool(m) for m in a["missing"]]))
+
+
 def g_dims(axes):
-    return g_list(["(mkDim %s %s)" % (ROLE_DK[a["role"]], g_list([g_bool(m) for m in a["missing"]]))
-                   for a in axes])
+    return g_list([g_dim(a) for a in axes])
 
 
 def _cell(x):
